@@ -48,7 +48,8 @@
   {'op': 'glue', 'text': '#include <string.h>\n#include "elem_lifetime.h"\n'
                          'typedef struct C10_T { long payload; ELEM e; } C10_T;\n'
                          'static inline void C10_T_construct(C10_T *p, int v) { p->payload = v; ELEM_construct_value(&p->e, v); }\n'
-                         'static inline void C10_T_destroy(C10_T *p) { ELEM_destroy(&p->e); }\n'
+                         '// ~T(): ends the lifetime; a destructor may scrub its members, the bytes of a destroyed object are indeterminate ([basic.life])\n'
+                         'static inline void C10_T_destroy(C10_T *p) { ELEM_destroy(&p->e); p->payload = nondet_long(); }\n'
                          '#define SOP_MAX(a, b) ((a) > (b) ? (a) : (b))\n'
                          'struct sop_storage_type { _Alignas(SOP_MAX(_Alignof(C10_T), _Alignof(struct slist_head))) char data[SOP_MAX(sizeof(C10_T), sizeof(struct slist_head))]; };\n'
                          '_Static_assert(sizeof(struct sop_storage_type) >= sizeof(C10_T), "Invalid storage_type size");\n'
